@@ -28,7 +28,7 @@ def property_aliases(prog, modnames):
     return alias
 
 
-def optnum_rule(run, modnames, rule='NONETEST'):
+def optnum_rule(run, modnames, rule='NONETEST', only=None):
     prog = run.prog
     alias = property_aliases(prog, modnames)
     canon = lambda a: alias.get(a, a)
@@ -48,6 +48,7 @@ def optnum_rule(run, modnames, rule='NONETEST'):
     opt = sorted(set(none_tested) & set(numeric))
     found = {}
     for fi in funcs:
+        if only is not None and not only(fi): continue
         # parameters stored into an optional numeric attribute of self
         stored = {}
         params = set(a.arg for a in fi.node.args.args)
